@@ -7,7 +7,7 @@
    Closed under the global context. *)
 From Coq Require Import Qround Sorted Lqa.
 From MM Require Import Base.Num Model.Ticks Proofs.Ticks Proofs.TicksLinear Check.C17 Proofs.CheckBase
-  Proofs.CheckC17Base Proofs.CheckC17Parse Proofs.CheckC17Lin Proofs.CheckC17Log Proofs.CheckC17Win.
+  Proofs.CheckC17Base Proofs.CheckC17Parse Proofs.CheckC17Lin Proofs.CheckC17Log Proofs.CheckC17Win Proofs.CheckC17WinLog.
 Local Open Scope Z_scope.
 
 (* a Log scale as NewLog returns it *)
@@ -325,7 +325,7 @@ Lemma case_meaning_scales :
    (fun v : Q => e9 * Qabs v)%Q).
 Proof. repeat match goal with |- _ /\ _ => split end; intros; reflexivity. Qed.
 
-(* the borderline rule (verdict code 1), Linear: outside the near_round window of every floor/ceil decision
+(* the borderline rule (verdict code 1): Linear: outside the near_round window of every floor/ceil decision
    the admissible comparison implies the exact one *)
 Lemma borderline_window :
   (forall base eb mn mx tolv lv, lin_amb_level base eb mn mx false (lv_level lv) = false ->
@@ -348,10 +348,20 @@ Lemma borderline_window :
      within (tolv (fst xy)) (fst xy) ao && within (tolv (snd xy)) (snd xy) bo = true) /\
   (forall q n, near_round q = Some n ->
      Qabs (q - inject_Z n) <= (4 # 1000000000000000) * (1 + Qabs q) /\ floor_adm q = [(n - 1)%Z; n] /\ ceil_adm q = [n; (n + 1)%Z]) /\
-  (forall q, near_int q = false -> floor_adm q = [qfl q] /\ ceil_adm q = [qcl q]).
+  (forall q, near_int q = false -> floor_adm q = [qfl q] /\ ceil_adm q = [qcl q]) /\
+  (* Log: no slack decision of log_exps undecided *)
+  (forall tolv o base mn mx st a b, le_amb (log_e base mn mx) = false ->
+     log_nice_A tolv o base mn mx st a b = true -> log_nice_E tolv o base mn mx st a b = true) /\
+  (forall base mn mx tolv lv, le_amb (log_e base mn mx) = false -> (0 <= lv_level lv)%Z ->
+     existsb (log_level_adm1 base (lf_neg mn mx) (lf_emin mn mx) (lf_emax mn mx) tolv lv) (log_adm base mn mx) = true ->
+     log_level_exact base (log_e base mn mx) (lf_neg mn mx) (lf_emin mn mx) (lf_emax mn mx) tolv lv = true) /\
+  (forall tolv o base mn mx st major minor l, le_amb (log_e base mn mx) = false ->
+     log_search o (log_e base mn mx) false = FL_ok l -> (match minor with Some _ => 1 | None => 0 end <= l)%Z ->
+     log_ticks_A tolv o base mn mx st major minor = true -> log_ticks_E tolv o base mn mx st major minor = true).
 Proof.
   split; [exact lin_level_adm_window|]. split; [exact lin_levels_borderline_in_window|].
   split; [exact lin_ticks_adm_window|]. split; [exact lin_nice_adm_window|]. split; [exact near_round_window|].
-  intros q H. split; [now apply floor_adm_window | now apply ceil_adm_window].
+  split; [intros q H; split; [now apply floor_adm_window | now apply ceil_adm_window]|].
+  split; [exact log_nice_A_window|]. split; [exact log_level_adm_window | exact log_ticks_A_window].
 Qed.
 End Statements.
